@@ -2,6 +2,7 @@
 import itertools
 import time
 from hypothesis import strategies as st
+from ..oracles import sgr as SGRmod
 
 from ..core import Part, sut, Ctx, SutError
 from ..gen import styles as GS
@@ -348,7 +349,8 @@ class TagDocs(Part):
         free = st.lists(event_strategy(), min_size=1, max_size=14).map(lambda evs: [list(e) for e in evs])
         base = st.one_of(st.none(), st.none(), st.sampled_from(GS.PALETTE))
         switch = st.one_of(st.none(), st.tuples(st.booleans(), st.sampled_from([None, True, False])).map(list))
-        return st.builds(lambda evs, b1, b2, sw: {"events": evs, "base": b1, "base2": b2, "switch": sw}, st.one_of(free, well_nested(), well_nested()), base, base, switch)
+        return st.builds(lambda evs, b1, b2, sw, args: {"events": evs, "base": b1, "base2": b2, "switch": sw, "args": args}, st.one_of(free, well_nested(), well_nested()), base, base, switch,
+                         st.one_of(st.none(), st.integers(0, 12)))
 
     def check(self, spec, ctx):
         from rich.markup import render
@@ -429,6 +431,44 @@ class TagDocs(Part):
                 ctx.violation("styling", "C04/switch/rendered-although-disabled", "Console(markup=%r).render_str(%r, markup=%r) gives %r with %r; markup is disabled for this call" % (cm, markup, pm, t3.plain, t3.spans))
                 return
             ctx.cls("console-switch-%s-%s" % (cm, pm))
+        # print() and log() with several string arguments: every argument is markup of its own (what one leaves open does not run into the next),
+        # and the per-call switches of log() mean what those of print() mean
+        if spec.get("args") is not None and len(evs) >= 2:
+            cut = 1 + spec["args"] % (len(evs) - 1)
+            r1, r2 = interpret(evs[:cut]), interpret(evs[cut:])
+            if r1[0] == "ok" and r2[0] == "ok":
+                import re as _re
+
+                def printed(c, *a, **kw):
+                    c.file.seek(0)
+                    c.file.truncate(0)
+                    sut(c.print, *a, **kw)
+                    return _re.sub(r"id=[0-9.]+-[0-9]+", "id=X", c.file.getvalue())
+
+                def logged(c, *a, **kw):
+                    c.file.seek(0)
+                    c.file.truncate(0)
+                    sut(c.log, *a, **kw)
+                    return _re.sub(r"id=[0-9.]+-[0-9]+", "id=X", c.file.getvalue())
+
+                c2 = sut(Console, file=io.StringIO(), color_system="truecolor", force_terminal=True, legacy_windows=False, width=300, log_time=False, log_path=False, emoji=True, highlight=False, _environ={})
+                t1, t2 = sut(render, r1[1], emoji=False), sut(render, r2[1], emoji=False)
+                joined = Text(" ").join([t1, t2])   # string arguments are rendered one by one and joined with the separator
+                want = printed(c2, joined)
+                got_out = printed(c2, r1[1], r2[1], emoji=False)
+                if got_out != want:
+                    ctx.violation("styling", "C04/args/print", "print(%r, %r) wrote %r; printing the two rendered texts writes %r" % (r1[1], r2[1], got_out[:300], want[:300]))
+                    return
+                want_l = logged(c2, joined)
+                got_l = logged(c2, r1[1], r2[1], emoji=False, markup=True)
+                if got_l != want_l:
+                    ctx.violation("styling", "C04/args/log", "log(%r, %r, markup=True, emoji=False) wrote %r; logging the two rendered texts writes %r" % (r1[1], r2[1], got_l[:300], want_l[:300]))
+                    return
+                lit = logged(c2, r1[1], markup=False, emoji=True)
+                if TM_strip(r1[1]).replace("\n", "") not in SGRmod.visible(lit).replace("\n", "").replace(" ", " ") and ":" not in r1[1] and "\n" not in r1[1] and "\r" not in r1[1]:
+                    ctx.violation("styling", "C04/args/log-literal", "log(%r, markup=False) does not show the text literally: %r" % (r1[1], lit[:300]))
+                    return
+                ctx.cls("several-arguments")
         # non-trivial: conflicting open tags over some character
         stack = []
         conflict = False
